@@ -183,7 +183,7 @@ theorem forward_ok (cfg : Cfg) (req : Parser) (s : St) (u : Url) (h pkt : Bytes)
     (hb : Px.Build.build cfg.bufSize cfg.disableHeaders (retarget req u) none (hostArg cfg u h) = .ok pkt) :
     forward cfg true req s =
       ⟨{ s with upstream := some ⟨[pkt], false⟩,
-                connects := s.connects ++ [(h, portOf cfg u)],
+                connects := s.connects ++ [(connectHost h, portOf cfg u)],
                 wraps := if u.scheme == some cfg.httpsProto then s.wraps ++ [h] else s.wraps },
        false, none⟩ := by
   have hne' : h.isEmpty = false := by cases h <;> simp_all
@@ -196,7 +196,7 @@ theorem forward_ok (cfg : Cfg) (req : Parser) (s : St) (u : Url) (h pkt : Bytes)
 theorem forward_refused (cfg : Cfg) (req : Parser) (s : St) (u : Url) (h : Bytes)
     (hc : s.choice = some u) (hh : u.hostname = some h) (hne : h ≠ []) (hu : utf8Valid h = true) :
     forward cfg false req s =
-      ⟨{ s with upstream := some ⟨[], true⟩, connects := s.connects ++ [(h, portOf cfg u)] },
+      ⟨{ s with upstream := some ⟨[], true⟩, connects := s.connects ++ [(connectHost h, portOf cfg u)] },
        true, some .httpProtocol⟩ := by
   have hne' : h.isEmpty = false := by cases h <;> simp_all
   unfold forward
